@@ -3,3 +3,4 @@ import Circomspect.Spec.Field
 import Circomspect.Model.Strip
 import Circomspect.Spec.Strip
 import Circomspect.Props.C16
+import Circomspect.Gen.ImplTables
